@@ -12,11 +12,11 @@
  */
 #define VF_EXTRA_STUBS
 #include "vf_env.h"
-static int g_pending=0; static int g_hs=0;
+static int g_pending=0; static int g_hs=0; static int g_blockins=0;
 #define g_init_vi env_init_vi
 #include "vorbisfile.c"
 int vorbis_synthesis(vorbis_block *vb,ogg_packet *op){ CHECK(env_dsp_live==1 && env_blk_live==1,"vorbis_synthesis only on an initialised decoder"); return ND_BOOL()?0:OV_ENOTAUDIO; }
-int vorbis_synthesis_blockin(vorbis_dsp_state *v,vorbis_block *vb){ CHECK(env_dsp_live==1,"blockin only on an initialised decoder"); g_pending=ND_irange(0,4096); return 0; }
+int vorbis_synthesis_blockin(vorbis_dsp_state *v,vorbis_block *vb){ CHECK(env_dsp_live==1,"blockin only on an initialised decoder"); g_pending=ND_irange(0,4096); g_blockins++; return 0; }
 int vorbis_synthesis_pcmout(vorbis_dsp_state *v,float ***pcm){ CHECK(env_dsp_live==1,"pcmout only on an initialised decoder"); return g_pending; }
 int vorbis_synthesis_halfrate_p(vorbis_info *vi){ return g_hs; }
 static ogg_int64_t _get_next_page(OggVorbis_File *vf,ogg_page *og,ogg_int64_t boundary){
@@ -33,7 +33,12 @@ static int _fetch_headers(OggVorbis_File *vf,vorbis_info *vi,vorbis_comment *vc,
 #endif
 void harness(void){
   OggVorbis_File vf; memset(&vf,0,sizeof vf); int ds=1; vf.datasource=&ds; vf.callbacks=env_cb;
-  vf.seekable=ND_BOOL(); g_hs=ND_irange(0,1);
+  vf.seekable=ND_BOOL();
+#ifdef HS
+  g_hs=HS;   /* configuration: one job per half-rate setting (a symbolic shift in the exact position oracle doubled the solver time) */
+#else
+  g_hs=ND_irange(0,1);
+#endif
   if(vf.seekable){
     vf.links=ND_irange(1,NL);
     vf.vi=calloc(vf.links,sizeof *vf.vi); vf.vc=calloc(vf.links,sizeof *vf.vc);
@@ -50,7 +55,7 @@ void harness(void){
   vf.ready_state=ND_irange(OPENED,INITSET); ASSUME(vf.seekable || vf.ready_state>=STREAMSET);
   if(vf.ready_state==INITSET){ env_dsp_live=1; env_blk_live=1; }
   vf.current_serialno=ND_int(); vf.pcm_offset=ND_range(-1,1L<<40); ogg_stream_init(&vf.os,(int)vf.current_serialno);
-  ogg_int64_t po0=vf.pcm_offset; int link0=vf.current_link;
+  ogg_int64_t po0=vf.pcm_offset; int link0=vf.current_link; vf.samptrack=ND_range(0,1L<<40); /* exactly representable as double */ ogg_int64_t st0=vf.samptrack;
   ogg_packet opin; int use_in=ND_BOOL(); int readp=ND_BOOL(), spanp=ND_BOOL();
   int r=_fetch_and_process_packet(&vf,use_in?&opin:0,readp,spanp);
   CHECK(r==1||r==0||r==OV_EOF||r==OV_HOLE||r==OV_EBADLINK||r==OV_EFAULT||r==OV_EREAD||r==OV_ENOTVORBIS||r==OV_EBADHEADER||r==OV_EVERSION,"documented return code");
@@ -60,13 +65,18 @@ void harness(void){
     if(vf.ready_state>=STREAMSET && (vf.current_link!=link0)) { CHECK(vf.serialnos[vf.current_link]==vf.current_serialno,"link selected by serial number"); WITNESS_AT("link changed"); } }
   if(vf.ready_state==INITSET && g_init_vi) CHECK(g_init_vi==vf.vi+(vf.seekable?vf.current_link:0),"decoder initialised with the current link's info");
   if(r==1){
-    if(vf.pcm_offset!=po0){
-      /* position was set from the packet: recompute from the definition */
-      int link=vf.seekable?vf.current_link:0; ogg_int64_t acc=0; for(int i=0;i<NL;i++) if(i<link) acc+=vf.pcmlengths[2*i+1];
-      ogg_int64_t first=(vf.seekable&&link>0)?vf.pcmlengths[2*link]:0;
-      ogg_int64_t g=vf.pcm_offset-acc+((ogg_int64_t)g_pending<<g_hs);          /* = max(granule-first,0) */
-      CHECK(g>=0,"position = max(granule - first offset,0) - pending + earlier links");
-      WITNESS_AT("position set from a granule position");
+    int link=vf.seekable?vf.current_link:0; ogg_int64_t acc=0; for(int i=0;i<NL;i++) if(i<link) acc+=vf.pcmlengths[2*i+1];
+    ogg_int64_t first=(vf.seekable&&link>0)?vf.pcmlengths[2*link]:0;
+    if(g_blockins==1){
+      /* _make_decode_ready zeroes the tracker whenever the decoder is (re)built during the call (ghost: env_init_vi set) */
+      CHECK(vf.samptrack==(g_init_vi?0:st0)+((ogg_int64_t)g_pending<<g_hs),"sample tracker advances by the samples decoded, in FULL-rate units (<<hs)");
+      if(env_last_gran!=-1 && !env_last_eos){
+        /* position set from the packet: recompute from the definition (full-rate units throughout) */
+        ogg_int64_t g=env_last_gran-first; if(g<0) g=0;
+        CHECK(vf.pcm_offset==g-((ogg_int64_t)g_pending<<g_hs)+acc,"position = max(granule - first offset,0) - (samples pending << hs) + lengths of earlier links");
+        if(g_hs && g_pending>0) WITNESS_AT("position set at half rate with samples pending");
+        WITNESS_AT("position set from a granule position");
+      } else CHECK(vf.pcm_offset==po0,"a packet without a usable granule position leaves the position alone");
     }
     WITNESS_AT("packet processed");
   }
